@@ -133,6 +133,14 @@ def oracle(case):
                    lambda: 'atom %s[%d] (node %r) has %s=%r, written %r' % (name, pos, hits[0], k, d.get(k), v))
     r, keys = sut(graph_variant, case)
     for lv in range(r.resolutions):
-        cg, fine = sut(r.resolve)
+        try:
+            cg, fine = sut(r.resolve)
+        except SutError as e:
+            # with other node keys the base edges are visited in another order; an ambiguous set may then
+            # pair an aromatic atom with a descriptor of order 2, which is legitimately rejected
+            if case['kind'] == 'fragset' and e.type == 'SyntaxError' and AROMATIC_REJECT in e.msg:
+                note('ambiguous_set_rejected_as_not_kekulisable')
+                return
+            raise
         all_atom = case['last_all_atom'] and lv == r.resolutions - 1
         invariants.check_mapping(cg, fine, r.fragment_dicts[lv], all_atom, 'from_graph (node keys in insertion order %r) level %d: ' % (keys, lv))
